@@ -158,3 +158,27 @@ impl RngCore for ScriptRng {
 pub fn std_rng(seed: u64) -> StdRng {
     StdRng::seed_from_u64(seed)
 }
+
+/// Words of a generated random stream: mostly arbitrary, with a share of extreme words (all ones, all
+/// zeros, one half all ones, a single bit) - thresholds and widening multiplications behave differently
+/// there, and a real generator produces them too rarely to be found by chance.
+pub fn script_word() -> impl proptest::strategy::Strategy<Value = u64> {
+    use proptest::prelude::*;
+    prop_oneof![
+        12 => any::<u64>(),
+        1 => Just(u64::MAX),
+        1 => Just(0u64),
+        1 => Just(0xFFFF_FFFF_0000_0000u64),
+        1 => Just(0x0000_0000_FFFF_FFFFu64),
+        1 => prop::sample::select(vec![1u64, 1 << 31, 1 << 32, 1 << 63, u64::MAX - 1, 0xFFFF_FFFE_FFFF_FFFF, 0x7FFF_FFFF_FFFF_FFFF, 0x0000_FFFF_0000_FFFF]),
+    ]
+}
+
+/// A generated script of up to `max` words (see `script_word`); a tenth of the scripts repeat one word.
+pub fn script_strategy(max: usize) -> impl proptest::strategy::Strategy<Value = Vec<u64>> {
+    use proptest::prelude::*;
+    prop_oneof![
+        9 => prop::collection::vec(script_word(), 0..max),
+        1 => (script_word(), 0..max).prop_map(|(w, n)| vec![w; n]),
+    ]
+}
